@@ -2,6 +2,7 @@ package main
 
 import (
 	"fmt"
+	"go/token"
 	"go/types"
 	"sort"
 
@@ -104,6 +105,63 @@ func codecChoice(p *Program, r *Report) {
 	}
 	if len(sites) == 0 {
 		r.Unresolved("no Encode/Decode invoke of a Codec-shaped interface in the module")
+	}
+	// the decoding side never succeeds without decoding: in every function that hands a payload to Codec.Decode, every path to a
+	// return passes a decode (the Codec's, or the registered reader's through the module's deserialising helper) or leaves with an
+	// error — an assignment of a non-nil value to an error cell, or a return whose error operand is not the nil constant. A
+	// shortcut for "nothing to decode" (an empty payload) delivers a nil message as if it had been sent: a message whose Codec
+	// encoding is the empty byte string arrives as nil, an Ask answered with it completes with (nil, nil).
+	errT := types.Universe.Lookup("error").Type()
+	seenFn := map[*ssa.Function]bool{}
+	for _, st := range sites {
+		if st.method != "Decode" || seenFn[st.fn] {
+			continue
+		}
+		seenFn[st.fn] = true
+		g := p.ig(st.fn)
+		stop := map[int]bool{}
+		for i, in := range g.Nodes {
+			if c := callOf(in); c != nil {
+				if c.IsInvoke() && codecShaped(c.Value.Type()) && c.Method.Name() == "Decode" {
+					stop[i] = true
+				}
+				if y := c.StaticCallee(); y != nil && p.inModule(y) && y.Signature.Results().Len() == 2 && types.Identical(y.Signature.Results().At(1).Type(), errT) {
+					for _, prm := range y.Params {
+						if codecShaped(prm.Type()) {
+							stop[i] = true // a deserialising helper that is handed the codec
+						}
+					}
+				}
+			}
+			if sto, ok := in.(*ssa.Store); ok && types.Identical(sto.Val.Type(), errT) && definitelyError(sto.Val) {
+				stop[i] = true
+			}
+			if ret, ok := in.(*ssa.Return); ok {
+				for _, rv := range ret.Results {
+					if types.Identical(rv.Type(), errT) && definitelyError(rv) {
+						stop[i] = true
+					}
+				}
+			}
+		}
+		// a failed read of the wire fields leaves through its own error: the edge err != nil of a call result is an error exit
+		errE := map[edge]bool{}
+		for _, ifi := range g.ifs() {
+			for _, oc := range []bool{true, false} {
+				f, ok := condFact(ifi.Cond, oc)
+				if ok && f.IsNil && f.Op == token.NEQ && types.Identical(f.X.Type(), errT) {
+					errE[g.branchEdge(ifi, oc)] = true
+				}
+			}
+		}
+		reach := g.Reach(g.entry(), stop, errE)
+		leak := false
+		for _, ex := range g.Exits {
+			if reach[ex] && !stop[ex] {
+				leak = true
+			}
+		}
+		r.Check(!leak, fmt.Sprintf("%s never succeeds without decoding", fnName(st.fn)), st.fn.Pos(), "every path to a return passes a decode of the payload or leaves with an error: no shortcut delivers a nil message for a payload that was not decoded")
 	}
 }
 
